@@ -572,8 +572,8 @@ impl Check for C02 {
                         // shape A: two flags + the argument; shape B: the argument alone, one more occurrence
                         let f1 = Named { names: mk_names(set[0]), kind: Kind::Switch, hidden: false, ty: Ty::Os, adjacent: false };
                         let f2 = Named { names: mk_names(set[1]), kind: Kind::Count, hidden: false, ty: Ty::Os, adjacent: false };
-                        let la = Level { named: vec![f1, f2, arg.clone()], tail: Tail::None, version: None };
-                        let lb = Level { named: vec![arg], tail: Tail::None, version: None };
+                        let la = Level { named: vec![f1, f2, arg.clone()], tail: Tail::None, version: None, usage_fallback: false };
+                        let lb = Level { named: vec![arg], tail: Tail::None, version: None, usage_fallback: false };
                         let full = ty == Ty::Os || tier == Tier::Thorough;
                         out.push(serde_json::to_value(Unit { level: la.clone(), max_occ: 3, values: if full && tier == Tier::Thorough { values_full() } else { values_small() }, wrap: 0 }).unwrap());
                         out.push(serde_json::to_value(Unit { level: lb, max_occ: if kind == Kind::ArgMany { 2 } else { 1 }, values: if full { values_full() } else { values_small() }, wrap: 0 }).unwrap());
